@@ -666,6 +666,11 @@ let rec repeat x = function
 let nthZ d l i =
   if Z.ltb i Z0 then d else nth (Z.to_nat i) l d
 
+(** val zlen : 'a1 list -> z **)
+
+let zlen l =
+  Z.of_nat (length l)
+
 (** val zseq : z -> nat -> z list **)
 
 let rec zseq a = function
@@ -685,6 +690,11 @@ let rec upd l i v =
 
 let updZ l i v =
   if Z.ltb i Z0 then l else upd l (Z.to_nat i) v
+
+(** val sumZ : z list -> z **)
+
+let sumZ l =
+  fold_right Z.add Z0 l
 
 (** val minl : z -> z list -> z **)
 
@@ -853,6 +863,22 @@ let border_map mode cc len =
                  else if (&&) (Z.leb Z0 cc) (Z.ltb cc len)
                       then Some cc
                       else None
+
+(** val border_pos : z -> z list -> z list -> z list option **)
+
+let rec border_pos mode sh pos =
+  match sh with
+  | [] -> Some []
+  | d :: r ->
+    (match pos with
+     | [] -> Some []
+     | p :: q ->
+       (match border_map mode p d with
+        | Some c ->
+          (match border_pos mode r q with
+           | Some t -> Some (c :: t)
+           | None -> None)
+        | None -> None))
 
 (** val clampos : z list -> z list -> z list **)
 
@@ -1246,3 +1272,82 @@ let mh_tophat_open d f bc =
 
 let mh_tophat_close d f bc =
   psubm d (mh_close d f bc) f.data
+
+(** val conv_at : z -> arr -> arr -> z list -> z **)
+
+let conv_at mode f w p =
+  fold_left (fun acc e ->
+    match retrieve mode f p (fst e) with
+    | Some v -> Z.add acc (Z.mul v (snd e))
+    | None -> acc) (entries true w) Z0
+
+(** val convolve_generic : z -> arr -> arr -> z list **)
+
+let convolve_generic mode f w =
+  map (conv_at mode f w) (all_positions f.shape)
+
+(** val sample : z -> arr -> z list -> z **)
+
+let sample mode f q =
+  match border_pos mode f.shape q with
+  | Some r -> aget f r
+  | None -> Z0
+
+(** val conv_spec : z -> arr -> arr -> z list -> z **)
+
+let conv_spec mode f w p =
+  sumZ
+    (map (fun k ->
+      Z.mul (aget w k) (sample mode f (padd p (psub k (centre w.shape)))))
+      (all_positions w.shape))
+
+(** val conv_spec_all : z -> arr -> arr -> z list **)
+
+let conv_spec_all mode f w =
+  map (conv_spec mode f w) (all_positions f.shape)
+
+(** val dot_interior : z list -> z list -> z -> z -> z **)
+
+let dot_interior row w centre0 x =
+  sumZ
+    (map (fun j ->
+      Z.mul (nthZ Z0 row (Z.sub (Z.add x j) centre0)) (nthZ Z0 w j))
+      (zseq Z0 (length w)))
+
+(** val dot_border : z -> z list -> z list -> z -> z -> z **)
+
+let dot_border mode row w centre0 x =
+  let n1 = zlen row in
+  sumZ
+    (map (fun j ->
+      let o = fix_offset mode (Z.add x (Z.sub j centre0)) n1 in
+      Z.mul (if Z.eqb o border_flag_value then Z0 else nthZ Z0 row o)
+        (nthZ Z0 w j)) (zseq Z0 (length w)))
+
+(** val row_fast : z -> z list -> z list -> z list -> z list **)
+
+let row_fast mode row w garbage =
+  let n1 = zlen row in
+  let nf = zlen w in
+  let centre0 = Z.quot nf (Zpos (XO XH)) in
+  let out1 =
+    if Z.geb centre0 n1
+    then garbage
+    else fold_left (fun o x -> updZ o x (dot_interior row w centre0 x))
+           (zseq centre0 (Z.to_nat (Z.sub (Z.sub n1 centre0) centre0)))
+           garbage
+  in
+  fold_left (fun o x_ ->
+    let x =
+      if Z.ltb x_ centre0
+      then x_
+      else Z.sub (Z.sub n1 (Zpos XH)) (Z.sub x_ centre0)
+    in
+    updZ o x (dot_border mode row w centre0 x))
+    (zseq Z0 (Z.to_nat (Z.min (Z.mul (Zpos (XO XH)) centre0) n1))) out1
+
+(** val row_spec : z -> z list -> z list -> z list **)
+
+let row_spec mode row w =
+  conv_spec_all mode { shape = ((zlen row) :: []); data = row } { shape =
+    ((zlen w) :: []); data = w }
